@@ -35,7 +35,7 @@ def run_batches(o, binary, batches, pid_tag):
             keys = [(b"\xff\xfe" if n % 4 == 1 else b"K" * 300) + b"%02d" % i for i in range(16)]
         disk = any(st.get("directio") for c in cases for st in c)
         # the directory argument is spelled in different (equivalent) ways: clean, trailing slash, "//", "/./", glob metacharacters in the name, relative
-        style = ["", "slash", "dslash", "dot", "glob", "rel"][sum(map(ord, name)) % 6] if pid_tag == "C01" else ""
+        style = ["", "slash", "dslash", "dot", "glob", "rel"][sum(map(ord, name)) % 6] if pid_tag in ("C01", "C06") else ""
         trace = dbrun.run_db_batch(binary, pid_tag + "-" + name, cases, gates=gates, seed=SEED, keys=keys, disk=disk, dirstyle=style)
         nok, bad, r = dbrun.judge_db(trace, o, "judge " + name)
         return trace, nok, bad, r
